@@ -831,7 +831,7 @@ def step(geo, op, before, base, hist, calls, rec):
         return None, False
     except Exception as e:
         tb = traceback.extract_tb(sys.exc_info()[2])
-        where = ['%s:%d %s' % (os.path.basename(f.filename), f.lineno, f.name) for f in tb if 'c10_geoedits' not in f.filename][-2:]
+        where = ['%s:%d %s' % (os.path.basename(f.filename), f.lineno, f.name) for f in tb if os.path.basename(f.filename) != 'c10_geoedits.py'][-2:]
         site = [w.split(' ')[0] for w in where][-1:] or ['?']
         rec.fail('exception' if supported else 'unsupported-exception', '%s[%s@%s]' % (k, type(e).__name__, site[0]), base, h, calls + [opstr(op)],
                  'raises %s: %s at %s%s' % (type(e).__name__, e, where, '' if supported else ' (selection or transition region has a column with more than 4 sides, which refine() documents as unsupported)'))
